@@ -284,6 +284,11 @@ class Future(BaseFuture):
     ) -> None:
         if isinstance(other, str):
             other = parse_register(other)
+        elif isinstance(other, RegFuture):
+            # The value lives in a register on the quantum node controller (a RegFuture
+            # is also an `int`, which would otherwise be taken as a literal)
+            assert other.reg is not None
+            other = other.reg
 
         # Store self in a temporary register
         tmp_register = self.builder._mem_mgr.get_inactive_register(activate=True)
@@ -459,6 +464,11 @@ class RegFuture(BaseFuture):
         assert self.reg is not None
         if isinstance(other, str):
             other = parse_register(other)
+        elif isinstance(other, RegFuture):
+            # Use the register itself (a RegFuture is also an `int`, which would
+            # otherwise be taken as a literal)
+            assert other.reg is not None
+            other = other.reg
 
         # Store self in a temporary register
         load_commands = []
